@@ -86,6 +86,8 @@ fn pipeline_report(spec: &PipeSpec, index: u64) -> RunReport {
     }
     let bytes = run.world.get_file(pipeline::ARCHIVE_PATH).unwrap_or_default();
     let want: Vec<(String, Vec<String>)> = w.samples.iter().map(|s| (s.name.clone(), s.contigs.iter().map(|c| c.0.trim().to_string()).collect())).collect();
+    let lens: Vec<Vec<usize>> = w.samples.iter().map(|s| s.contigs.iter().map(|c| c.1.len()).collect()).collect();
+    let k = spec.cfg.k as usize;
     let mut order: Vec<usize> = (0..want.len()).collect();
     let mut rr = seed::Rng::new(seed::fnv64(&bytes) ^ 0x0DD);
     for i in (1..order.len()).rev() {
@@ -110,6 +112,15 @@ fn pipeline_report(spec: &PipeSpec, index: u64) -> RunReport {
             let got = d.list_contigs(s).map_err(|e| ("pipeline-contig-names".to_string(), format!("list_contigs({s:?}) as query #{n} on one handle: {e:#}")))?;
             if &got != contigs {
                 return Err(("pipeline-contig-names".into(), format!("list_contigs({s:?}) as query #{n} on one handle returned {} names {:?}.., {} were added {:?}..", got.len(), got.first(), contigs.len(), contigs.first())));
+            }
+            // the descriptor table read back by name describes THIS contig: first length plus the
+            // later lengths minus k is the number of bases that was added under that name
+            for (ci, c) in contigs.iter().enumerate() {
+                let segs = d.get_contig_segments_desc(s, c).map_err(|e| ("pipeline-descriptor".to_string(), format!("get_contig_segments_desc({s:?}, {c:?}): {e:#}")))?;
+                let described: usize = segs.iter().enumerate().map(|(i, x)| if i == 0 { x.raw_length as usize } else { (x.raw_length as usize).saturating_sub(k) }).sum();
+                if described != lens[si][ci] {
+                    return Err(("pipeline-descriptor".into(), format!("the descriptor table read back for {s:?}/{c:?} describes {described} bases in {} segments, {} bases were added under that name", segs.len(), lens[si][ci])));
+                }
             }
             if n % 3 == 0 {
                 let mut f = open()?;
